@@ -17,7 +17,7 @@ Request
  "cons":[<con>,…]}
 <con> = {"k":"R","kind":"ro"|"lin","eq":0|1,"rows":<rows_json over the num_var vt columns>,"rst":[d,…],
          "sel":{"k":"amb","a":<index>}|{"k":"list","prog":<prog>}|{"k":"dflt"}}
-      | {"k":"E","eq":0|1,"amb":<index>|null,"pieces":[{"kind":"ro"|"lin","rows":<rows_json>},…]}
+      | {"k":"E","eq":0|1,"amb":<index>|null,"pieces":[{"kind":"ro"|"lin","rows":<rows_json>,"pat":[[d,…] per row]},…]}
 ```
 `<prog>`: primal programs in the `readConeProg` format (with the stored pattern `"sp"`).
 Reply: `{"raises": …}` or the compiled program (`writeConeProg` format) plus `"vtype"`, `"nd"` (decision
@@ -38,10 +38,11 @@ def readAmb (j : Json) : Except String (Amb ℚ) := do
     pure (P, ix.toList)
   pure { sup := fun s => sups.getD s ConeProg.undef, pro := pro, exps := exps }
 
-def readPiece (j : Json) : Except String (Constr ℚ) := do
+def readPiece (j : Json) : Except String (Constr ℚ × Array (Array ℕ)) := do
   let kind ← readKind (← fld j "kind")
   let rows ← readRoRows (← fld j "rows")
-  pure { kind := kind, eq := false, rows := rows, rst := fun _ => false }
+  let pat ← jNatMat (fldD j "pat" (Json.arr #[]))      -- per row: the vt columns stored in its random coefficients
+  pure ({ kind := kind, eq := false, rows := rows, rst := fun _ => false }, pat)
 
 def readDCon (j : Json) : Except String (DCon ℚ) := do
   match ← jStr (← fld j "k") with
@@ -61,8 +62,9 @@ def readDCon (j : Json) : Except String (DCon ℚ) := do
       let eq ← jNat (← fld j "eq")
       let aj := fldD j "amb" Json.null
       let a ← (if aj.isNull then pure none else do pure (some (← jNat aj)) : Except String (Option ℕ))
-      let ps ← (← jArr (← fld j "pieces")).toList.mapM readPiece
-      pure (.E ps (eq == 1) a)
+      let ps ← (← jArr (← fld j "pieces")).mapM readPiece
+      pure (.E (ps.toList.map (·.1)) (eq == 1) a
+        (fun l i d => (((ps.getD l (Constr.zero, #[])).2).getD i #[]).contains d))
   | k => throw s!"unknown constraint kind {k}"
 
 def readDObj (j : Json) : Except String (DCon ℚ) := do
@@ -130,10 +132,10 @@ def opDroModel (j : Json) : Except String Json := do
       ("nd", oNat nd), ("n0", oNat D.n0), ("nitems", oNat items.length),
       ("rule_wf", Json.bool (ruleWF D)),
       ("amb_wf", Json.arr ((objc :: cons).filterMap fun c => match c with
-        | .E _ _ a => (eAmb D a).map fun ai => Json.bool (ambWF D (D.amb ai))
+        | .E _ _ a _ => (eAmb D a).map fun ai => Json.bool (ambWF D (D.amb ai))
         | _ => none).toArray),
       ("pieces_ok", Json.arr ((objc :: cons).filterMap fun c => match c with
-        | .E ps _ _ => some (Json.bool (piecesOK D ps))
+        | .E ps _ _ _ => some (Json.bool (piecesOK D ps))
         | _ => none).toArray),
       ("branches", Json.arr ((droBranches items).map Json.str).toArray)])
 
